@@ -1,6 +1,7 @@
 package rules
 
 import (
+	"fmt"
 	"go/token"
 	"go/types"
 	"strings"
@@ -458,13 +459,18 @@ func runC02(ctx *core.Ctx) {
 		}
 	}
 	// ---- N6: separator bytes split unconditionally outside quotes
-	ctx.Rule("N6", "separator tests: outside quotes each of blank, tab and '#' ends the current word unconditionally - the true edge of every comparison of the current byte with one of these constants leads straight to the same word-ending block, with no further condition in between", 1)
+	ctx.Rule("N6", "separator tests: outside quotes each of blank, tab and '#' ends the current word unconditionally - from the true edge of every comparison of the current byte with one of these constants, every path to the next byte (or the return) appends the finished word to the result list or crosses the edge on which there is no current word", 1)
 	{
 		g := graph(p, parse)
 		line := parse.Params[1]
 		targets := map[int][]string{}
 		where := map[int][]int{}
 		n := 0
+		type sepTest struct {
+			ifi *ssa.If
+			sep string
+		}
+		var tests []sepTest
 		g.Instrs(func(i ssa.Instruction) {
 			ifi, ok := i.(*ssa.If)
 			if !ok {
@@ -488,6 +494,7 @@ func runC02(ctx *core.Ctx) {
 								n++
 								targets[t] = append(targets[t], string(rune(sep)))
 								where[t] = append(where[t], ifi.Block().Index)
+								tests = append(tests, sepTest{ifi, string(rune(sep))})
 							}
 						}
 					}
@@ -512,33 +519,178 @@ func runC02(ctx *core.Ctx) {
 			t := ifi.Block().Succs[0].Index
 			targets[t] = append(targets[t], string(rune(k)))
 			where[t] = append(where[t], ifi.Block().Index)
+			tests = append(tests, sepTest{ifi, string(rune(k))})
 		})
-		// tests made inside the word-ending block itself (e.g. "is this '#', then stop") are not split tests
-		for t := range targets {
-			for t2, blocks := range where {
-				if t2 == t {
+		_, _ = targets, where
+		// What "ends the current word unconditionally" means, whatever the layout: from the true edge of
+		// the test, every way to the end of this iteration (the next byte, or the return) either appends the
+		// finished word to the result list or runs over the edge that says there is no current word
+		// (chunk start < 0). A way that does neither carries the separator on into the word, or drops it.
+		isWordAppend := func(i ssa.Instruction) bool {
+			c, ok := i.(*ssa.Call)
+			return ok && isBuiltinCall(c, "append") && c.Type().String() == "[]string"
+		}
+		noWord := map[[2]int]bool{}
+		for _, blk := range parse.Blocks {
+			ifi, ok := blk.Instrs[len(blk.Instrs)-1].(*ssa.If)
+			if !ok || len(blk.Succs) != 2 {
+				continue
+			}
+			cond, pos := stripNotB(ifi.Cond, true)
+			b, ok := cond.(*ssa.BinOp)
+			if !ok {
+				continue
+			}
+			z, isZ := ssax.ConstInt(b.Y)
+			if _, isPhi := b.X.(*ssa.Phi); !isPhi || !isZ || z != 0 {
+				continue
+			}
+			switch b.Op {
+			case token.LSS: // start < 0: the true edge
+				if pos {
+					noWord[[2]int{blk.Index, blk.Succs[0].Index}] = true
+				} else {
+					noWord[[2]int{blk.Index, blk.Succs[1].Index}] = true
+				}
+			case token.GEQ: // start >= 0: the false edge
+				if pos {
+					noWord[[2]int{blk.Index, blk.Succs[1].Index}] = true
+				} else {
+					noWord[[2]int{blk.Index, blk.Succs[0].Index}] = true
+				}
+			}
+		}
+		// blocks that can be reached, within one iteration, with the word still open
+		open := map[int]bool{}
+		{
+			var hdrs []int
+			for _, t := range tests {
+				if l, ok := innermostLoop(g, t.ifi.Block().Index); ok {
+					hdrs = append(hdrs, l.Header)
+				}
+			}
+			type e2 struct{ pred, blk int }
+			seen := map[e2]bool{}
+			var work []e2
+			for _, h := range hdrs {
+				work = append(work, e2{-1, h})
+			}
+			for len(work) > 0 {
+				cur := work[0]
+				work = work[1:]
+				if seen[cur] || !g.Reach[cur.blk] || noWord[[2]int{cur.pred, cur.blk}] {
 					continue
 				}
-				inside := true
-				for _, b := range blocks {
-					if !g.DomBlock(t, b) {
-						inside = false
+				seen[cur] = true
+				if cur.pred >= 0 {
+					isHdr := false
+					for _, h := range hdrs {
+						if h == cur.blk {
+							isHdr = true
+						}
+					}
+					if isHdr {
+						continue
 					}
 				}
-				if inside && len(targets[t]) >= 3 {
-					n -= len(targets[t2])
-					delete(targets, t2)
+				open[cur.blk] = true
+				closed := false
+				for _, ins := range parse.Blocks[cur.blk].Instrs {
+					if isWordAppend(ins) {
+						closed = true
+					}
 				}
+				if closed || g.Cut[cur.blk] >= 0 {
+					continue
+				}
+				for _, nx := range g.Succs[cur.blk] {
+					work = append(work, e2{cur.blk, nx})
+				}
+			}
+		}
+		seps := map[string]bool{}
+		var bad []string
+		for _, t := range tests {
+			if !open[t.ifi.Block().Index] {
+				continue // asked after the word was closed ("was that a '#'? then stop")
+			}
+			seps[t.sep] = true
+			from := t.ifi.Block()
+			l, inLoop := innermostLoop(g, from.Index)
+			// breadth-first over (predecessor, block); a block that branches on a boolean merged in it is
+			// left in the direction the value arriving from the predecessor decides
+			type st struct{ pred, blk int }
+			seen := map[st]bool{}
+			work := []st{{from.Index, from.Succs[0].Index}}
+			escape := ""
+			for len(work) > 0 && escape == "" {
+				cur := work[0]
+				work = work[1:]
+				if seen[cur] || !g.Reach[cur.blk] {
+					continue
+				}
+				seen[cur] = true
+				if noWord[[2]int{cur.pred, cur.blk}] {
+					continue
+				}
+				if inLoop && cur.blk == l.Header {
+					escape = "the next byte is reached"
+					break
+				}
+				blk := parse.Blocks[cur.blk]
+				stopped := false
+				end := len(blk.Instrs)
+				if c := g.Cut[cur.blk]; c >= 0 {
+					end = c + 1
+				}
+				for _, ins := range blk.Instrs[:end] {
+					if isWordAppend(ins) {
+						stopped = true
+						break
+					}
+					if _, isRet := ins.(*ssa.Return); isRet {
+						escape = "the tokenizer returns"
+					}
+				}
+				if stopped || escape != "" || g.Cut[cur.blk] >= 0 {
+					continue
+				}
+				succs := g.Succs[cur.blk]
+				if ifi, ok := blk.Instrs[len(blk.Instrs)-1].(*ssa.If); ok && len(blk.Succs) == 2 {
+					cond, pos := stripNotB(ifi.Cond, true)
+					if ph, isPhi := cond.(*ssa.Phi); isPhi && ph.Block() == blk {
+						for k, pb := range blk.Preds {
+							if pb.Index != cur.pred {
+								continue
+							}
+							if kb, isK := ssax.ConstBool(ph.Edges[k]); isK {
+								take := blk.Succs[1].Index
+								if kb == pos {
+									take = blk.Succs[0].Index
+								}
+								succs = []int{take}
+							}
+						}
+					}
+				}
+				for _, nx := range succs {
+					work = append(work, st{cur.blk, nx})
+				}
+			}
+			if escape != "" {
+				bad = append(bad, fmt.Sprintf("after %q is recognised outside quotes (%s) %s without the word having been closed", t.sep, p.Pos(t.ifi.Pos()), escape))
 			}
 		}
 		switch {
 		case n == 0:
 			ctx.Note("N6", "testscript.parse#separators", parse.Pos(), "separator comparisons not found in the tokenizer (moved into a helper?): clause not decided")
 			ctx.OKTrivial("N6", "testscript.parse#separators-unrecognised", parse.Pos(), "not decided")
-		case len(targets) == 1 && n >= 3:
-			ctx.OK("N6", "testscript.parse#separators", parse.Pos(), "%d separator tests, all leading directly to the word-ending block", n)
+		case len(bad) == 0 && seps[" "] && seps["\t"] && seps["#"]:
+			ctx.OK("N6", "testscript.parse#separators", parse.Pos(), "%d separator tests; after each, every way to the next byte closes the current word or finds there is none", n)
+		case len(bad) == 0:
+			ctx.Bad("N6", "testscript.parse#separators", parse.Pos(), "not every separator is tested outside quotes: blank=%v tab=%v '#'=%v", seps[" "], seps["\t"], seps["#"])
 		default:
-			ctx.Bad("N6", "testscript.parse#separators", parse.Pos(), "separator tests lead to %d different blocks (%v): some separator byte ends a word only under an extra condition, so e.g. 'word#comment' is no longer cut at '#'", len(targets), targets)
+			ctx.Bad("N6", "testscript.parse#separators", parse.Pos(), "some separator byte ends a word only under an extra condition, so e.g. 'word#comment' is no longer cut at '#': %s", strings.Join(bad, "; "))
 		}
 	}
 	// ---- N7: env NAME=VALUE splits at the first '=' only
